@@ -58,7 +58,9 @@ ASSUMPTIONS = ['real-number semantics of binary64 formulas (DESIGN 3.1)',
                'scipy.stats families are coherent (pdf, cdf, ppf, logpdf) tuples at the fitted parameters '
                '(Uni.FamilyCoherent; validated on a grid on every run)',
                'scipy.stats.gaussian_kde: covariance > 0, weights >= 0 summing to 1, evaluate = kernel density']
-TRUSTED_EXTRA = ['CopVerif/Base/FloatFns.lean: Cody (1969) erfc at Float, measured against scipy.special.ndtr on every run']
+TRUSTED_EXTRA = ['CopVerif/Base/FloatFns.lean: Cody (1969) erfc at Float, measured against scipy.special.ndtr on every run',
+                 'CopVerif/Model/Families.lean: executable closed forms of uniform/norm/loglaplace/truncnorm, equal at R to '
+                 'the proved CopVerif.Families.* (Props/C03d.lean), compared with scipy at the fitted parameters on every run']
 
 EPS = float(np.finfo(np.float32).eps)
 KDE_TOL = 4e-6            # DESIGN section 8: deficit <= Phi(-5 sqrt(4/5)) < 4e-6
@@ -561,6 +563,7 @@ def run(ctx, lean):
         tv_ppf_pre(ctx, lean)
         corr_kde_ppf(ctx, lean)
     corr_tables(ctx, lean)
+    tv_closed_forms(ctx, lean)
     corr_forwarding(ctx)
     corr_wrapper(ctx, lean)
 
@@ -886,6 +889,161 @@ def corr_kde_ppf(ctx, lean):
             if d and bad is None:
                 bad = {'spec': spec, 'data': data.tolist(), 'method': method, 'q': qs, 'diff': d}
     ctx.ob('corr:kde.percent_point', bad is None, 'tie', bad or 'ok')
+
+
+# ------------------------------------------------------------------ closed forms of four scipy families
+CF_FAMILIES = {'UniformUnivariate': ('uniform', ('loc', 'scale')), 'GaussianUnivariate': ('norm', ('loc', 'scale')),
+               'LogLaplace': ('loglaplace', ('c', 'loc', 'scale')),
+               'TruncatedGaussian': ('truncnorm', ('a', 'b', 'loc', 'scale'))}
+FEPS = 2.220446049250313e-16
+
+
+def cf_pool(ctx, cls, count):
+    """fitted models of one class: the generic data generators plus a few extreme samples"""
+    rng = ctx.rng('cfpool', cls)
+    out = []
+    tries = 0
+    while len(out) < count and tries < 3 * count:
+        tries += 1
+        meta, data = gen_data(rng, n=rng.choice([5, 8, 20, 60, 200]))
+        r = rng.random()
+        if r < 0.1:
+            data = float(data[0]) + (data - float(data[0])) * 1e-7           # nearly constant: loc >> scale
+            meta = dict(meta, extreme='near-constant')
+        elif r < 0.2:
+            data = np.concatenate([data, [float(data.max()) + 1e4 * float(data.std())]])   # one far outlier
+            meta = dict(meta, extreme='outlier')
+        spec = gen_spec(rng, cls, data)
+        m = fit(spec, data)
+        if isinstance(m, tuple) or is_const(m):
+            ctx.count(f'cf.{cls}.fit-raises-or-constant')
+            continue
+        pr = {k: float(v) for k, v in m._params.items()}
+        if not all(math.isfinite(v) for v in pr.values()) or not pr.get('scale', 0) > 0:
+            ctx.count(f'cf.{cls}.non-finite-params')
+            continue
+        out.append((spec, meta, data, m, pr))
+    return out
+
+
+def tv_closed_forms(ctx, lean):
+    """scipy's pdf / cdf / ppf / logpdf at the fitted parameters (exactly what the library calls) vs the closed
+    forms of Model/Families.lean evaluated at Float: the residual assumption of the FamilyCoherent theorems of
+    Props/C03c.lean ("scipy's functions ARE these closed forms"), bridged to them in Props/C03d.lean."""
+    from scipy.special import ndtr
+    for cls, (fam, pnames) in CF_FAMILIES.items():
+        name = f'tv:closed-form:{fam}'
+        if lean is None:
+            ctx.ob(name, False, 'tie', 'driver unavailable')
+            continue
+        rng = ctx.rng('cf', cls)
+        bad = None
+        worst = {'pdf': 0.0, 'cdf': 0.0, 'ppf': 0.0, 'logpdf': 0.0}
+        nvals = skipped = 0
+        for spec, meta, data, m, pr in cf_pool(ctx, cls, 8 * ctx.scale):
+            mc = type(m).MODEL_CLASS
+            loc, sc = pr['loc'], pr['scale']
+            if fam == 'truncnorm':
+                lo_s, hi_s = loc + pr['a'] * sc, loc + pr['b'] * sc
+                D = float(ndtr(pr['b']) - ndtr(pr['a']))
+            elif fam == 'norm':
+                lo_s, hi_s, D = -math.inf, math.inf, 1.0
+            else:
+                lo_s, hi_s, D = loc, (loc + sc if fam == 'uniform' else math.inf), 1.0
+            if not D > 1e-12:
+                ctx.count(f'cf.{fam}.degenerate-truncation')
+                continue
+            pts = list(probes(rng, data))
+            pts += [loc + sc * t for t in (-38.0, -8.0, -3.0, -1.0, -1e-3, 0.0, 1e-3, 0.5, 1.0, 1.0 + 1e-9, 3.0, 8.0, 38.0, 1e3)]
+            for e in (lo_s, hi_s):
+                if math.isfinite(e):
+                    pts += [e, e - 1e-6 * sc, e + 1e-6 * sc, np.nextafter(e, -np.inf), np.nextafter(e, np.inf)]
+            x = np.array(sorted(set(float(p_) for p_ in pts if math.isfinite(p_))))
+            q = np.array(QGRID + [0.0, 1.0, 1e-12, 1 - 1e-12] + [rng.random() for _ in range(6)])
+            ph = hx([pr[k] for k in pnames])
+            # a discontinuity of the density sits at a finite support end: the closed forms decide `x in support` in
+            # x, scipy in (x - loc)/scale; the two roundings may disagree within a few ulps of the end point
+            mag = np.maximum(np.maximum(np.abs(x), abs(loc)), sc)
+            near_end = np.zeros(len(x), dtype=bool)
+            for e in (lo_s, hi_s):
+                if math.isfinite(e):
+                    near_end |= np.abs(x - e) <= 8 * FEPS * mag
+            inside = (x >= lo_s) & (x <= hi_s)
+            rt = {'uniform': 1e-14, 'norm': 5e-13, 'loglaplace': 1e-12, 'truncnorm': 1e-10}[fam] + 16 * FEPS / D
+            with np.errstate(all='ignore'):
+                ref = {'pdf': mc.pdf(x, **pr), 'cdf': mc.cdf(x, **pr), 'logpdf': mc.logpdf(x, **pr), 'ppf': mc.ppf(q, **pr)}
+            for fn in ('pdf', 'cdf', 'logpdf', 'ppf'):
+                arg = q if fn == 'ppf' else x
+                if fn == 'ppf' and fam in ('norm', 'truncnorm'):
+                    # no executable inverse normal CDF: the closed-form CDF of scipy's quantile must give q back
+                    xq = np.asarray(ref['ppf'], dtype=float)
+                    fin = np.isfinite(xq)
+                    r = lean_floats(lean, f'cf {fam} cdf {ph} {hx(xq[fin])}')
+                    ctx.case((name, 'ppf-via-cdf', str(pr)))
+                    if r[0] != 'ok' or len(r[1]) != int(fin.sum()):
+                        bad = bad or {'params': pr, 'fn': 'ppf', 'driver': str(r)[:150]}
+                        continue
+                    for qi, xi, ci in zip(q[fin], xq[fin], r[1]):
+                        pdf_i = float(mc.pdf(xi, **pr))
+                        cond = 4 * FEPS * pdf_i * max(abs(xi), abs(loc), sc)     # one rounding of x moves the CDF by this
+                        if not cond <= 1e-9:
+                            skipped += 1        # scale at the float resolution of loc (degenerate fit): nothing to compare
+                            ctx.count(f'cf.{fam}.ppf-ill-conditioned')
+                            continue
+                        nvals += 1
+                        tol = 1e-13 + rt * min(qi, 1 - qi) + cond + 16 * FEPS / D
+                        err = abs(ci - qi)
+                        worst['ppf'] = max(worst['ppf'], err)
+                        if not err <= tol and bad is None:
+                            bad = {'params': pr, 'fn': 'cdf(ppf(q))', 'q': float(qi), 'scipy_ppf': float(xi),
+                                   'closed_form_cdf': ci, 'tolerance': tol}
+                    continue
+                r = lean_floats(lean, f'cf {fam} {fn} {ph} {hx(arg)}')
+                ctx.case((name, fn, str(pr)))
+                if r[0] != 'ok' or len(r[1]) != len(arg):
+                    bad = bad or {'params': pr, 'fn': fn, 'driver': str(r)[:150]}
+                    continue
+                for i, (ai, a, b) in enumerate(zip(arg, np.asarray(ref[fn], dtype=float), r[1])):
+                    a = float(a)
+                    if fn in ('pdf', 'logpdf') and near_end[i]:
+                        skipped += 1
+                        continue
+                    if fn == 'logpdf' and not inside[i]:
+                        skipped += 1            # scipy: -inf; the real-valued closed form has an arbitrary value there
+                        continue
+                    if fn == 'pdf' and fam == 'loglaplace' and ai == loc and pr['c'] < 1:
+                        skipped += 1            # scipy: 0**(c-1) = +inf
+                        continue
+                    nvals += 1
+                    if a != a or b != b or math.isinf(a) or math.isinf(b):
+                        ok = same(a, b)
+                        err = 0.0 if ok else float('inf')
+                    else:
+                        if fn == 'logpdf':
+                            tol = (rt + 1e-13) * max(1.0, abs(a)) + 64 * FEPS * param_cond(pr)
+                        elif fn == 'cdf':
+                            tol = rt * abs(a) + 8 * FEPS / D + 1e-300
+                        elif fn == 'ppf':
+                            tol = rt * max(abs(a), abs(loc), sc) + 1e-300
+                        else:
+                            tol = rt * abs(a) + 1e-300
+                        err = abs(a - b)
+                        ok = err <= tol
+                        worst[fn] = max(worst[fn], err / max(abs(a), 1e-300) if fn == 'pdf' else
+                                        err / max(abs(a), abs(loc), sc) if fn == 'ppf' else err)
+                    if not ok and bad is None:
+                        bad = {'params': pr, 'fn': fn, 'at': float(ai), 'scipy': a, 'closed_form': b,
+                               'data_meta': meta}
+            if len(ctx.samples) < 8:
+                ctx.sample({'op': name, 'params': pr, 'x': float(x[len(x) // 2]),
+                            'scipy_cdf': float(ref['cdf'][len(x) // 2])})
+        ctx.count(f'cf.{fam}.values', nvals)
+        ctx.count(f'cf.{fam}.skipped', skipped)
+        ctx.ob(name, bad is None, 'tie',
+               bad or ('max err: pdf %.2g (rel), cdf %.2g (abs), ppf %.2g (%s), logpdf %.2g (abs) over %d values'
+                       % (worst['pdf'], worst['cdf'], worst['ppf'],
+                          '|cdf(ppf q) - q|' if fam in ('norm', 'truncnorm') else 'rel. to max(|x|,|loc|,scale)',
+                          worst['logpdf'], nvals)))
 
 
 def corr_tables(ctx, lean):
